@@ -68,6 +68,12 @@ func (w *ecKWSupport) unwrap(block interface{}, encryptedKey []byte) ([]byte, er
 		return nil, errors.New("unwrap support: EC wrap with invalid cipher block type")
 	}
 
+	// An empty encrypted key passes the unwrap implementation's block-size check (0 is a multiple of 8) and then makes it
+	// allocate a slice of negative length.
+	if len(encryptedKey) == 0 {
+		return nil, errors.New("unwrap support: EC unwrap invalid (empty) key")
+	}
+
 	return josecipher.KeyUnwrap(blockCipher, encryptedKey)
 }
 
